@@ -196,18 +196,20 @@ func TestVerifFetcher(t *testing.T) {
 		ft.fetcher.Stop()
 		verifStepHook = nil
 	}
-	waitImported := func(ft *fetcherTester, n int) {
-		deadline := time.Now().Add(3 * time.Minute)
+	waitImportedFor := func(ft *fetcherTester, n int, limit time.Duration) bool {
+		deadline := time.Now().Add(limit)
 		for time.Now().Before(deadline) {
 			ft.lock.RLock()
 			have := len(ft.hashes) - 1
 			ft.lock.RUnlock()
 			if have >= n {
-				return
+				return true
 			}
 			time.Sleep(5 * time.Millisecond)
 		}
+		return false
 	}
+	waitImported := func(ft *fetcherTester, n int) { waitImportedFor(ft, n, 3*time.Minute) }
 	settle := func(d time.Duration) { time.Sleep(d) }
 
 	// 1. an honest peer announces a chain block by block: fetched, completed, imported; nothing is left
@@ -315,8 +317,7 @@ func TestVerifFetcher(t *testing.T) {
 				case 0, 1:
 					if next >= 0 {
 						ft.fetcher.Notify(p, hashes[next], uint64(len(hashes)-next-1), due(), hfs[p], bfs[p])
-						if p == "p0" {
-							waitImported(ft, len(hashes)-1-next)
+						if p == "p0" && waitImportedFor(ft, len(hashes)-1-next, time.Second) { // else another peer was asked and keeps silent
 							next--
 						}
 					}
